@@ -116,7 +116,7 @@ func genCell(t *rapid.T, cell int) Case {
 	}
 
 	if c.Hello.Prefix == "nc" && rapid.Bool().Draw(t, "randPrefix") {
-		c.Hello.Prefix = rapid.StringMatching(`[a-z][a-z0-9_]{0,4}`).Draw(t, "prefixRand")
+		c.Hello.Prefix = rapid.StringMatching(`[a-z][a-z0-9_.\-]{0,4}`).Draw(t, "prefixRand")
 	}
 
 	if rapid.IntRange(0, 5).Draw(t, "hasSID") != 0 {
